@@ -4,7 +4,7 @@ import hashlib
 import re
 
 from .. import gram, rx
-from ..model import AnalysisError, norm
+from ..model import AnalysisError, norm, walk_own
 
 PYPARSER = 'parso/python/parser.py'
 PYTREE = 'parso/python/tree.py'
@@ -583,3 +583,34 @@ def gr_8b(ctx, rep):
         rep.ob('GR-8b', PYPARSER, 'Parser', 'node class of %r has get_defined_names' % t, ok,
                'definition type %r is built as %s, which has no get_defined_names' % (t, getattr(cls, 'name', cls)))
     rep.minimum('GR-8b', 20)
+
+
+def gr_8c(ctx, rep):
+    rep.rule('GR-8c', 'the node types Function.iter_yield_exprs refuses to descend into are exactly the scope-creating '
+                      'node types (classes derived from Scope other than the module)')
+    from ..model import Cls
+    prog = ctx.prog
+    scope = prog.cls(PYTREE, 'Scope')
+    want = set()
+    for c in prog.subclasses(scope):
+        t = class_type(c)
+        if t and t[0] == 'const' and t[1] != 'file_input':
+            want.add(t[1])
+    fn = prog.cls(PYTREE, 'Function').methods.get('iter_yield_exprs')
+    if fn is None:
+        raise AnalysisError('anchor vanished: Function.iter_yield_exprs')
+    found = 0
+    funcs = [fn] + list(fn.nested.values())
+    for g in funcs:
+        for n in walk_own(g.node):
+            if isinstance(n, ast.If) and len(n.body) == 1 and isinstance(n.body[0], ast.Continue) \
+                    and isinstance(n.test, ast.Compare) and len(n.test.ops) == 1 and isinstance(n.test.ops[0], (ast.In, ast.Eq)) \
+                    and norm(n.test.left).endswith('.type'):
+                from . import tc
+                vals = tc._const_strs(ctx, g.mod, n.test.comparators[0])
+                found += 1
+                rep.ob('GR-8c', PYTREE, g.qual, 'scope boundary of the yield scan: %s' % norm(n.test), vals == want,
+                       'the yield scan stops at %s, the scope-creating node types are %s: a yield that belongs to the '
+                       'function is missed or a foreign one is counted' % (sorted(vals or []), sorted(want)))
+    if not found:
+        rep.ob('GR-8c', PYTREE, fn.qual, 'scope boundary of the yield scan', False, 'the scan no longer stops at nested scopes')
